@@ -121,19 +121,41 @@ QuoteByte(b) ==
     [] b = 13 -> <<92, 114>> [] b = 9 -> <<92, 116>> [] b = 11 -> <<92, 118>>
     [] OTHER -> LET hex == <<48, 49, 50, 51, 52, 53, 54, 55, 56, 57, 97, 98, 99, 100, 101, 102>> IN
                 IF b < 32 \/ b = 127 THEN <<92, 120, hex[(b \div 16) + 1], hex[(b % 16) + 1]>> ELSE <<b>>
-\* strconv.Quote on byte strings: ASCII exactly; 2-byte UTF-8 sequences of printable runes are kept;
-\* everything else (invalid UTF-8, 3/4-byte runes whose printability is table-driven) is outside the model
+\* strconv.Quote on byte strings: ASCII exactly; multi-byte UTF-8 sequences of runes known to be printable are kept
+\* (U+00C0..U+07FF, CJK U+4E00..U+9FFF, emoticons U+1F600..U+1F64F); everything else (invalid UTF-8, runes whose
+\* printability is table-driven) is outside the model
+RuneLen(b) == IF b < 128 THEN 1 ELSE IF b >= 194 /\ b <= 223 THEN 2 ELSE IF b >= 224 /\ b <= 239 THEN 3 ELSE IF b >= 240 /\ b <= 244 THEN 4 ELSE 0
+Cont(b) == b >= 128 /\ b <= 191
+RuneOk(bs) == LET n == RuneLen(Head(bs)) IN n >= 1 /\ Len(bs) >= n /\ \A i \in 2..n : Cont(bs[i])
+RuneCp(bs) ==
+  LET n == RuneLen(Head(bs)) IN
+  CASE n = 1 -> bs[1]
+    [] n = 2 -> (bs[1] - 192) * 64 + (bs[2] - 128)
+    [] n = 3 -> (bs[1] - 224) * 4096 + (bs[2] - 128) * 64 + (bs[3] - 128)
+    [] n = 4 -> (bs[1] - 240) * 262144 + (bs[2] - 128) * 4096 + (bs[3] - 128) * 64 + (bs[4] - 128)
+KnownPrintable(cp) == (cp >= 192 /\ cp <= 2047) \/ (cp >= 19968 /\ cp <= 40959) \/ (cp >= 128512 /\ cp <= 128591)
 RECURSIVE QuoteSeq(_)
 QuoteSeq(bs) ==
   IF bs = <<>> THEN <<>>
   ELSE IF Head(bs) < 128 THEN QuoteByte(Head(bs)) \o QuoteSeq(Tail(bs))
-  ELSE <<Head(bs), bs[2]>> \o QuoteSeq(Tail(Tail(bs)))
+  ELSE LET n == RuneLen(Head(bs)) IN SubSeq(bs, 1, n) \o QuoteSeq(SubSeq(bs, n + 1, Len(bs)))
 RECURSIVE Quotable(_)
 Quotable(bs) ==
   IF bs = <<>> THEN TRUE
   ELSE IF Head(bs) < 128 THEN Quotable(Tail(bs))
-  ELSE /\ Len(bs) >= 2 /\ Head(bs) >= 195 /\ Head(bs) <= 223 /\ bs[2] >= 128 /\ bs[2] <= 191     \* U+00C0..U+07FF
-       /\ Quotable(Tail(Tail(bs)))
+  ELSE RuneOk(bs) /\ KnownPrintable(RuneCp(bs)) /\ Quotable(SubSeq(bs, RuneLen(Head(bs)) + 1, Len(bs)))
+\* strconv.QuoteToASCII (%+q): every non-ASCII rune becomes \uXXXX, or \UXXXXXXXX from U+10000 on
+HexDigit(d) == <<48, 49, 50, 51, 52, 53, 54, 55, 56, 57, 97, 98, 99, 100, 101, 102>>[d + 1]
+RECURSIVE HexN(_, _)
+HexN(v, n) == IF n = 0 THEN <<>> ELSE HexN(v \div 16, n - 1) \o <<HexDigit(v % 16)>>
+RECURSIVE QuoteAsciiSeq(_)
+QuoteAsciiSeq(bs) ==
+  IF bs = <<>> THEN <<>>
+  ELSE IF Head(bs) < 128 THEN QuoteByte(Head(bs)) \o QuoteAsciiSeq(Tail(bs))
+  ELSE LET n == RuneLen(Head(bs)) cp == RuneCp(bs) IN
+       (IF cp < 65536 THEN <<92, 117>> \o HexN(cp, 4) ELSE <<92, 85>> \o HexN(cp, 8)) \o QuoteAsciiSeq(SubSeq(bs, n + 1, Len(bs)))
+RECURSIVE AllRunesOk(_)
+AllRunesOk(bs) == bs = <<>> \/ (RuneOk(bs) /\ AllRunesOk(SubSeq(bs, RuneLen(Head(bs)) + 1, Len(bs))))
 
 TypeNameBytes(t) ==   \* names that can appear in %!d(T=..) bad-verb output
   CASE t = "float32" -> <<102, 108, 111, 97, 116, 51, 50>> [] t = "float64" -> <<102, 108, 111, 97, 116, 54, 52>>
@@ -158,6 +180,9 @@ Sprintf(f, x) ==
   ELSE IF f = <<37, 113>> THEN                                         \* "%q"
        (IF x.k = "str" THEN (IF Quotable(x.v) THEN VStr(<<34>> \o QuoteSeq(x.v) \o <<34>>) ELSE VBad("%q beyond the modelled alphabet"))
         ELSE VBad("%q of non-string"))
+  ELSE IF f = <<37, 43, 113>> THEN                                     \* "%+q"
+       (IF x.k = "str" THEN (IF AllRunesOk(x.v) THEN VStr(<<34>> \o QuoteAsciiSeq(x.v) \o <<34>>) ELSE VBad("%+q of invalid UTF-8"))
+        ELSE VBad("%+q of non-string"))
   ELSE IF f \in {<<37, 118>>, <<37, 115>>} THEN (IF f = <<37, 115>> /\ x.k # "str" THEN VBad("%s of non-string") ELSE FormatV(x))
   ELSE VBad("Sprintf format")
 
